@@ -233,6 +233,8 @@ CHECKS = {
                 "and the first one comes within one interval (false alarm 22).",
         "assumptions": ["no eviction limit exceeded when a cycle runs", "consecutive janitor cycles are DeleteExpiredJobInterval apart, the first within one interval of creation"],
         "jobs": [
+            # "as long as no eviction limit is exceeded": memory soft limits set but not exceeded
+            {"run": "^TestC12MemLimitNotExceeded$", "name": "C12MemLimitNotExceeded-for-C11", "n": {"quick": 300, "thorough": 3000}},
             {"run": "^TestC11Janitor$", "n": {"quick": 10000, "thorough": 100000}},
             {"run": "^TestC11FailoverOwnedBackend$", "n": {"quick": 3000, "thorough": 30000}},
         ],
@@ -250,6 +252,8 @@ CHECKS = {
                 "MostExpired and expired reads under LRU/LFU are excluded by construction (rank not stated).",
         "assumptions": ["SysMemSoftLimit not exercised (it calls debug.FreeOSMemory)"],
         "jobs": [
+            # a memory soft limit that is configured but not exceeded (heap high-water mark above it) evicts nothing
+            {"run": "^TestC12MemLimitNotExceeded$", "n": {"quick": 400, "thorough": 4000}},
             {"run": "^TestC12Eviction$", "n": {"quick": 6000, "thorough": 60000}},
             # LFU rank under truly parallel serves (real goroutines, outside a bubble)
             {"run": "^TestC12LFUParallel$", "n": {"quick": 40, "thorough": 400}},
